@@ -63,6 +63,7 @@ def setup(rec, tier):
         if res.shape != th.shape:
             rec.violation(mon, mech + "/result-shape", lambda: dict(wit(), got_shape=res.shape, want_shape=th.shape))
             return
+        res, th, want = res.ravel(), np.asarray(th, float).ravel(), np.asarray(want, float).ravel()      # arrays of any rank, judged element-wise
         tol = 1e-9 * size
         bad = ~(np.abs(res - want) <= tol)
         rec.ok(mon, int((~bad).sum()))
